@@ -445,6 +445,40 @@ def run(ctx):
     caller_names(ctx)
     pinned_search_fields(ctx)
     same_named_classes(ctx)
+    folder_identity(ctx)
+
+
+class _FlatAnalysis(af.Analysis):
+    def log_likelihood_function(self, instance):
+        return -1.0
+
+
+def folder_identity(ctx):
+    """a fit is read back from its own folder (search.json, model.json, unique tag) under the identifier it was
+    written under - without and with a unique tag"""
+    import contextlib
+    import io
+    from pathlib import Path
+    import vlib
+    from autofit.aggregator.search_output import SearchOutput
+
+    for tag in (None, "tag_a"):
+        case = {"label": "folder-identity", "tag": tag}
+        try:
+            with contextlib.redirect_stdout(io.StringIO()):
+                search = af.Drawer(name="c07_folder", unique_tag=tag, total_draws=2)
+                search.fit(model=af.Collection(g=af.Model(vlib.P2), k=af.UniformPrior(0.0, 1.0)), analysis=_FlatAnalysis())
+                d = Path(search.paths.output_path)
+                if not (d / "files" / "model.json").exists():
+                    search.paths.restore()
+                read_back = SearchOutput(d).id
+        except Exception as e:  # noqa
+            ctx.disagree("C07.folder-identity-raises", case, f"{type(e).__name__}: {str(e)[:200]}", "an identifier")
+            continue
+        ctx.hit("folder-identity:" + ("tagged" if tag else "untagged"))
+        if read_back != search.paths.identifier:
+            ctx.fail("C07-folder-id-differs", "a fit read back from its own folder reports another identifier than the one it was written under",
+                     case, {"written": search.paths.identifier, "read_back": read_back})
 
 
 class _Sersic:  # renamed below: two different user classes called `Sersic` (a light and a mass profile)
@@ -533,5 +567,7 @@ def replay(ctx, payload):
         one_case(ctx, case["program"], case.get("search"), case.get("tag"), label="replay")
     elif case.get("label") == "same-named-classes":
         same_named_classes(ctx)
+    elif case.get("label") == "folder-identity":
+        folder_identity(ctx)
     else:
         caller_names(ctx)
